@@ -492,6 +492,13 @@ fn case_machine(t: &mut Tape, ctx: &CaseCtx) -> CaseResult {
     let p = SchedProfile { requests_w: 2, drop_machine: false, offer: (5, 6), min_wait: (1, 6), switch_wakers: (1, 3), ..Default::default() };
     let (h, info) = run_scheduled(t, &p);
     let (nontrivial, mut classes) = check_log(&h, &info)?;
+    // lossless: every schedule the flow computes is emitted, so the observer must receive a ScheduleChange after each
+    // policy answer (the rule C12 states about the announcement, here as 'no emitted event is lost')
+    if let Err(f) = super::c12::check_log_upto(&h, &info, h.log.len()) {
+        if f.signature == "schedule-not-announced" {
+            return Err(Failure::new("event-lost:schedule-change", format!("an emitted ScheduleChange never reached the observer: {}", f.message), f.case));
+        }
+    }
     classes.push("state_machine");
     if h.script.switch_wakers {
         classes.push("consumer_polls_with_alternating_wakers");
